@@ -13,6 +13,7 @@ mod relfam;
 mod xform;
 mod run;
 mod semfam;
+mod seqfam;
 mod session;
 mod tmplfam;
 
@@ -72,6 +73,8 @@ fn main() {
         "gen-loops" => semfam::gen_loops(&args),
         "gen-templates" => tmplfam::gen_templates(&args),
         "replay-gc" => gcfam::replay_gc(&args),
+        "gen-enum" => seqfam::gen_enum(&args),
+        "gen-roundtrip" => seqfam::gen_roundtrip(&args),
         "gen-heap" => gcfam::gen_heap(&args),
         "show" => semfam::show(&args),
         other => {
